@@ -26,7 +26,7 @@ RULE = ("simulated style-based elections (all / disjoint / nested / random style
         "skipped; distinct = hash of (spec, sizes)")
 REQUIRED = ["contract:CVR.consistent_sampling", "draws_checked", "thresholds_checked", "data_prefix_checked",
             "determinism_checked", "vote_independence_checked", "draws_with_skipped_cards", "sizes:ones", "sizes:all",
-            "sizes:one_exhausted", "sizes:random", "draws_with_phantoms_selected", "cards_listing_no_contest_present"]
+            "sizes:one_exhausted", "sizes:random", "draws_with_phantoms_selected", "cards_listing_no_contest_present", "polling_order_checked", "mismatched_sample_refused"]
 ASSUMPTIONS = ["distinct sample numbers; n_c <= number of cards listing c; dict keys equal contest ids; thresholds for "
                "n_c = 0 are unconstrained"]
 N_CASES = {"quick": 19200, "thorough": 200000}
@@ -186,6 +186,32 @@ def run_case(es, rec):
                                    "data": d, "expected": exp, "threshold": con.sample_threshold})
                     return
                 break  # one assertion per contest suffices for the order check
+
+    # ---- ordering helpers: both prep_* functions put the sample back into selection order ----------------------------
+    order = {sim.cvr_list[i].id: {"selection_order": k, "serial": i + 1} for k, i in enumerate(idx)}
+    mv = [sim.mvr_for(i) for i in idx]
+    want_ids = [x.id for x in mv]
+    shuffled = mv[:]
+    rng.shuffle(shuffled)
+    ok, _ = rec.guard("c07.call:prep_polling_sample", CVR.prep_polling_sample, shuffled, order)
+    if not ok:
+        return
+    rec.count("polling_order_checked")
+    if [x.id for x in shuffled] != want_ids:
+        rec.violation("c07.data", "prep_polling_sample_does_not_restore_selection_order", {"got": [x.id for x in shuffled][:8], "want": want_ids[:8]})
+        return
+    if len(idx) >= 2:
+        # a manual record for the wrong card must be refused, not silently paired
+        mv2 = [sim.mvr_for(i) for i in idx]
+        mv2[0] = CVR(id="not-a-sampled-card", votes={})
+        order2 = dict(order)
+        order2["not-a-sampled-card"] = {"selection_order": 0, "serial": 0}
+        try:
+            CVR.prep_comparison_sample(mv2, [sim.cvr_list[i] for i in idx], order2)
+            rec.violation("c07.data", "prep_comparison_sample_accepts_mismatched_identifiers", {"ids": [x.id for x in mv2][:4]})
+            return
+        except AssertionError:
+            rec.count("mismatched_sample_refused")
 
     # ---- determinism of sample numbers --------------------------------------------------------------------------
     if es["sample_nums"]["kind"] == "sha256":
